@@ -651,9 +651,11 @@ def run_item(ctx, item):
         pass
     if no_structure and ok:
         # unfolds to an equal part
-        a = sorted((type(o).__name__, int(o.start.t), int(o.end.t) if o.end is not None else None, getattr(o, "id", None))
+        # (an unfolding is a concatenation of segments and begins at 0; positions are compared relative to the first time point)
+        oa, ob = int(part.first_point.t), int(umax.first_point.t)
+        a = sorted((type(o).__name__, int(o.start.t) - oa, int(o.end.t) - oa if o.end is not None else None, getattr(o, "id", None))
                    for o in registered(part) if type(o).__name__ != "Segment")
-        b = sorted((type(o).__name__, int(o.start.t), int(o.end.t) if o.end is not None else None,
+        b = sorted((type(o).__name__, int(o.start.t) - ob, int(o.end.t) - ob if o.end is not None else None,
                     (getattr(o, "id", None) or "").rsplit("-", 1)[0] if (update_ids and isinstance(o, S.Note)) else getattr(o, "id", None))
                    for o in registered(umax))
         ctx.check()
